@@ -4,17 +4,23 @@ use serde_json::Value;
 
 pub mod c01;
 pub mod c02;
+pub mod c04;
 pub mod c11;
+pub mod c12;
+pub mod c13;
 pub mod c16;
 pub mod c18;
 
-pub const ALL: &[&str] = &["C01", "C02", "C11", "C16", "C18"];
+pub const ALL: &[&str] = &["C01", "C02", "C04", "C11", "C12", "C13", "C16", "C18"];
 
 pub fn run(ctx: &Ctx) -> Option<Outcome> {
     Some(match ctx.id.as_str() {
         "C01" => c01::run(ctx),
         "C02" => c02::run(ctx),
+        "C04" => c04::run(ctx),
         "C11" => c11::run(ctx),
+        "C12" => c12::run(ctx),
+        "C13" => c13::run(ctx),
         "C16" => c16::run(ctx),
         "C18" => c18::run(ctx),
         _ => return None,
@@ -26,7 +32,10 @@ pub fn replay(id: &str, kind: &str, case: &Value) -> Option<Result<(), String>> 
     Some(match id {
         "C01" => c01::replay(kind, case),
         "C02" => c02::replay(kind, case),
+        "C04" => c04::replay(kind, case),
         "C11" => c11::replay(kind, case),
+        "C12" => c12::replay(kind, case),
+        "C13" => c13::replay(kind, case),
         "C16" => c16::replay(kind, case),
         "C18" => c18::replay(kind, case),
         _ => return None,
